@@ -267,8 +267,8 @@ func c15Shapes(thorough bool) []TreeSpec {
 			}
 			bs = append(bs, BranchSpec{Tag: "B", From: from, Fork: fork, End: T + 3})
 		}
-		add("trunk", fa)  // same fork point as A
-		add("A", fa+2)    // fork of the fork
+		add("trunk", fa) // same fork point as A
+		add("A", fa+2)   // fork of the fork
 		if thorough {
 			add("trunk", fa-1)
 			add("trunk", fa+1)
@@ -302,7 +302,9 @@ func c15EventConfigs(s TreeSpec, kind syncx.Kind) [][]PlacedEvent {
 		return y
 	}
 	ok := func(key, variant int) EventSpec { return EventSpec{Key: key, Variant: variant, Flavor: "ok"} }
-	P := func(branch string, h int, e EventSpec) PlacedEvent { return PlacedEvent{Branch: branch, Height: h, Ev: e} }
+	P := func(branch string, h int, e EventSpec) PlacedEvent {
+		return PlacedEvent{Branch: branch, Height: h, Ev: e}
+	}
 	// named positions
 	forkCommon := fa
 	if forkCommon < start {
